@@ -156,3 +156,178 @@ def QAnyWit(u, loop, scaled, row0, k, part=None):
     u.path.index_term(w, loop.nnz)
     parts = [w >= 0, w < loop.nnz, row0.f(w) == row0.f(k), scaled(w) >= 1]
     return z3.And(*parts) if part is None else parts[part]
+
+
+# ----------------------------------------------------------------------------------------------------
+# scale_symmetric: iterated square-root column-sum scaling
+
+
+class ColSumLoop:
+    """for k in range(len(a_data)): R[a_cols[k]] += a_data[k]
+    invariant(k): forall j. R[j] == colsum(j, k) >= 0, with the recursive spec function
+        colsum(j, 0) = 0 ;  colsum(j, k+1) = colsum(j, k) + (cols[k] == j ? a[k] : 0)"""
+
+    def __init__(self, u, n):
+        self.u, self.n = u, n
+
+    def sequence(self, it, frame, iterable):
+        p = it.path
+        self.R = frame.locals["R"]
+        self.cols = frame.locals["a_cols"].vec()
+        self.a = frame.locals["a_data"].vec()
+        self.nnz = self.a.n
+        self.CS = p.func("colsum", z3.IntSort(), z3.IntSort(), z3.RealSort())
+        CS, cols, a = self.CS, self.cols, self.a
+        # defining equations of the spec function (definitional extension), instantiated on ground (j, k)
+        p.add_ufact(UFact(1, lambda j: CS(j, 0) == 0, [(0, self.n)], "colsum(j,0)"))
+        p.add_ufact(UFact(2, lambda j, k: z3.And(CS(j, k + 1) == CS(j, k) + z3.If(cols.f(k) == j, ops._real(a.f(k)), 0)), [(0, self.n), (0, self.nnz)], "colsum(j,k+1)"))
+        self.u._colsum = (CS, self.nnz)
+        return npmodel.seq_view(it, iterable)
+
+    def _inv(self, R, k):
+        CS = self.CS
+        return QAll(self.n, lambda j: z3.And(ops._real(R.f(j)) == CS(j, k), ops._real(R.f(j)) >= 0))
+
+    def establish(self, it, frame, site, n):
+        it.path.prove(self._inv(self.R.vec(), 0), f"{site}:invariant:establish:R==colsum(.,0)", kind="invariant")
+
+    def havoc(self, it, frame, site, k, n):
+        p = it.path
+        A = z3.Array(p.fresh_name("R_h"), z3.IntSort(), z3.RealSort())
+        h = Vec(self.n, lambda j: z3.Select(A, p.auto_index(j, self.n)), "real", arr=A)
+        self.R.cell.val = h
+        p.assume(self._inv(h, k))
+        if k is not n:
+            p.index_term(self.cols.f(k), self.n)
+
+    def preserve(self, it, frame, site, k, n):
+        it.path.prove(self._inv(self.R.vec(), k + 1), f"{site}:invariant:preserve:R==colsum(.,k+1)", kind="invariant")
+
+    def at_break(self, *a):
+        raise Unsupported("break in column-sum loop")
+
+
+class EquilibrationLoop:
+    """for i in range(max_it): ...   invariant: a_data[q] == |A.data[q]| * P(D[rows q] + D[cols q]) >= 0"""
+
+    def __init__(self, u, n):
+        self.u, self.n = u, n
+
+    def sequence(self, it, frame, iterable):
+        self.a = frame.locals["a_data"]
+        self.D = frame.locals["D"]
+        self.rows, self.cols = frame.locals["a_rows"].vec(), frame.locals["a_cols"].vec()
+        self.a0 = self.a.vec()
+        self.nnz = self.a0.n
+        return npmodel.seq_view(it, iterable)
+
+    def _inv(self, a, D):
+        a0, rows, cols, n = self.a0, self.rows, self.cols, self.n
+        P = lambda e: pow2_at(self.u.it, e)
+        path = self.u.path
+        return QAll(self.nnz, lambda q: z3.And(a.f(q) == a0.f(q) * P(D.f(path.index_term(rows.f(q), n)) + D.f(path.index_term(cols.f(q), n))), a0.f(q) >= 0))
+
+    def establish(self, it, frame, site, n):
+        it.path.prove(self._inv(self.a.vec(), self.D.vec()), f"{site}:invariant:establish:a_data==|A|*P(D_r+D_c)", kind="invariant")
+
+    def havoc(self, it, frame, site, k, n):
+        p = it.path
+        A = z3.Array(p.fresh_name("a_h"), z3.IntSort(), z3.RealSort())
+        self.a.cell.val = Vec(self.nnz, lambda q: z3.Select(A, p.auto_index(q, self.nnz)), "real", arr=A)
+        Dh = z3.Array(p.fresh_name("D_h"), z3.IntSort(), z3.IntSort())
+        self.D.cell.val = Vec(self.n, lambda j: z3.Select(Dh, p.auto_index(j, self.n)), "int", arr=Dh)
+        p.assume(self._inv(self.a.vec(), self.D.vec()))
+        self.u._equil = self
+
+    def preserve(self, it, frame, site, k, n):
+        it.path.prove(self._inv(self.a.vec(), self.D.vec()), f"{site}:invariant:preserve:a_data==|A|*P(D_r+D_c)", kind="invariant")
+
+    def at_break(self, it, frame, site, k, n):
+        self.u._break_frame = dict(frame.locals)
+
+
+@unit("C20.scale_symmetric", ["C20", "C11"], [SC + "scale_symmetric", SC + "Scaling.from_equilibrated_kkt"], config={"max_paths": 200})
+def scale_symmetric(u):
+    """whenever the equilibration returns D: the matrix |A| scaled by P(D_r + D_c) has every column sum that is not
+    zero inside [1, 4); D is an integer vector; A is not modified.  (Column sums through the recursive spec function
+    colsum of the accumulation loop.)"""
+    from pyvc import matmodel
+
+    n = u.int("n")
+    u.assume(n >= 0)
+    A = matmodel.user_matrix(u.it, n, n, "K", fmt=["coo", "csr", "csc"][u.path.choose_n(3, "format")])
+    data0 = A.coo[3].vec()
+    log = StoreLog(u)
+    outer = EquilibrationLoop(u, n)
+    inner1 = ColSumLoop(u, n)
+    F = SC + "scale_symmetric"
+    holder = {}
+
+    def rescale_spec(q):
+        fr = holder["frame"]
+        Rs = fr["Rsca"].vec()
+        a_before = holder["a_before"]
+        return a_before.f(q) * pow2_at(u.it, Rs.f(u.path.index_term(outer.rows.f(q), n)) + Rs.f(u.path.index_term(outer.cols.f(q), n)))
+
+    from .c04_transform import TripletLoop
+
+    inner2 = TripletLoop(u, "a_data", rescale_spec)
+    seq2 = inner2.sequence
+
+    def seq(it, frame, iterable):
+        holder["frame"] = frame.locals
+        holder["a_before"] = frame.locals["a_data"].vec()
+        return seq2(it, frame, iterable)
+
+    inner2.sequence = seq
+    inner2.check_body = lambda frame, site: None
+    u.it.loop_specs[F + "/loop#0"] = outer
+    u.it.loop_specs[F + "/loop#1"] = inner1
+    u.it.loop_specs[F + "/loop#2"] = inner2
+    kind, val = u.raised(lambda: u.call(F, A))
+    if kind == "raise":
+        msg = val.exc.args[0] if val.exc.args else ""
+        u.ensure(val.exc.cls is Exception and msg == "Equilibration failed to converge", "raises_only{Equilibration failed to converge}", desc=f"escaping {val.exc!r}")
+        return
+    D = V(val)
+    u.ensure(D.kind == "int", "weights_are_integers")
+    CS, nnz = u._colsum
+    P = lambda e: pow2_at(u.it, e)
+    # the column sums at the moment of the break are those of |A| scaled by the returned D (outer invariant)
+    a_fin = outer.a.vec()
+    u.ensure(QAll(nnz, lambda q: a_fin.f(q) == ops.zabs(data0.f(q)) * P(D.f(u.path.index_term(outer.rows.f(q), n)) + D.f(u.path.index_term(outer.cols.f(q), n)))), "summed_entries==|A[q]|*P(D[row]+D[col])_for_the_returned_D")
+    u.ensure(QAll(n, lambda j: z3.Implies(CS(j, nnz) != 0, z3.And(1 <= CS(j, nnz), CS(j, nnz) < 4))), "KKT:nonzero_column_sum_in_[1,4)")
+    u.ensure(QAll(nnz, lambda q: A.coo[3].vec().f(q) == data0.f(q)), "matrix_not_modified", props=["C11"])
+    u.canary(QAll(n, lambda j: z3.Implies(CS(j, nnz) != 0, CS(j, nnz) < 2)), "column_sum<2")
+    u.cover("returned")
+
+
+@unit("C20.from_equilibrated_kkt", ["C20"], [SC + "Scaling.from_equilibrated_kkt", SC + "create_scaling"], config={"max_paths": 50})
+def equilibrated_kkt(u):
+    """the KKT matrix handed to the equilibration is [[H, J^T], [J, 0]] entry by entry, and the weights are split as
+    var_weights = -D[:n], cons_weights = D[n:]; create_scaling dispatches on the scaling type and evaluates the
+    callbacks at the user-supplied scaling point"""
+    from pyvc import matmodel
+    from pyvc.values import Mat
+
+    n, m = u.int("n"), u.int("m")
+    u.assume(z3.And(n >= 0, m >= 0))
+    H, J = Mat(n, n, None, name="H"), Mat(m, n, None, name="J")
+    got = {}
+    Dw = u.vec("D", n + m, kind="int")
+
+    def ss(it, K):
+        got["K"] = K
+        return Dw
+
+    u.it.abstract[SC + "scale_symmetric"] = ss
+    sc = u.call(SC + "Scaling.from_equilibrated_kkt", H, J)
+    K = got["K"]
+    e, eH, eJ = matmodel.entry_fn(u.it, K), matmodel.entry_fn(u.it, H), matmodel.entry_fn(u.it, J)
+    i, j = u.int("i"), u.int("j")
+    u.assume(z3.And(i >= 0, j >= 0, i < n + m, j < n + m))
+    u.ensure(e(i, j) == z3.If(z3.And(i < n, j < n), eH(i, j), z3.If(z3.And(i < n, j >= n), eJ(j - n, i), z3.If(z3.And(i >= n, j < n), eJ(i - n, j), 0))), "KKT_matrix==[[H,J^T],[J,0]]")
+    vw, cw, D = V(sc.fields["var_weights"]), V(sc.fields["cons_weights"]), V(Dw)
+    u.ensure(QAll(n, lambda q: vw.f(q) == -D.f(q)), "var_weights==-D[:n]")
+    u.ensure(QAll(m, lambda q: cw.f(q) == D.f(q + n)), "cons_weights==D[n:]")
+    u.ensure(vw.kind == "int" and cw.kind == "int", "weights_are_integers")
